@@ -435,6 +435,7 @@ fn main() {
     let mut run_mode = "main".to_owned();
     let mut use_args = true;
     let mut clock_cfg: Option<(u64, u64, u64, u64)> = None;
+    let mut clock_os = false;
 
     for line in text.lines() {
         let f: Vec<String> = line.split_whitespace().map(|s| s.to_owned()).collect();
@@ -442,7 +443,10 @@ fn main() {
             continue;
         }
         match f[0].as_str() {
-            "clock" => clock_cfg = Some((f[1].parse().unwrap(), f[2].parse().unwrap(), f[3].parse().unwrap(), f[4].parse().unwrap())),
+            "clock" => {
+                clock_os = f.get(5).map(|x| x == "os").unwrap_or(false);
+                clock_cfg = Some((f[1].parse().unwrap(), f[2].parse().unwrap(), f[3].parse().unwrap(), f[4].parse().unwrap()));
+            }
             "b" => builder_ops.push(f[1..].to_vec()),
             "run" => run_mode = f[1].clone(),
             "args" => use_args = f[1] == "1",
@@ -590,7 +594,11 @@ fn main() {
     if let Some((freq, delta, q, base)) = clock_cfg {
         clock::configure(delta, q);
         clock::new_epoch(base);
-        clock::install(freq);
+        if clock_os {
+            clock::install_os();
+        } else {
+            clock::install(freq);
+        }
     }
 
     // Builder calls, then (optionally) the command line, as `divan::main()` / a custom main would do.
